@@ -32,6 +32,7 @@ type c09Scenario struct {
 	DialTimeout string    `json:"dial_timeout"`
 	DataTimeout string    `json:"data_timeout"`
 	CancelAt    string    `json:"cancel_at,omitempty"`
+	CancelStep  int       `json:"cancel_at_step,omitempty"` // Ctrl-C right before this scheduling step (lands between two operations of the probe)
 	Reply       []byte    `json:"reply,omitempty"`
 }
 
@@ -105,7 +106,12 @@ func c09Generate(p picker, o Opts) *c09Scenario {
 		sc.Script = append(sc.Script, c09Step{Op: "wait", Wait: lat("l1")}, c09Step{Op: "send", Bytes: reply}, c09Step{Op: "stall"})
 	}
 	if p.pct("cancel", 25) {
-		sc.CancelAt = p.dur("cancelat", 1, dial+2*data).String()
+		if p.bool("cancelbystep") {
+			// between any two scheduling points of the probe: after the dial, between write and read, ...
+			sc.CancelStep = 1 + p.n("cancelstep", 30)
+		} else {
+			sc.CancelAt = p.dur("cancelat", 1, dial+2*data).String()
+		}
 	}
 	return sc
 }
@@ -132,7 +138,8 @@ func runC09(t *testing.T, c simrt.Chooser, o Opts) *Out {
 	var dur time.Duration
 	returned := false
 	var cancelT time.Duration
-	res := simrt.Execute(t, simrt.Config{Chooser: c, Trace: o.Trace, MaxSteps: 200000, SigintAt: parseDur(sc.CancelAt)}, func(r *simrt.Run) {
+	cancelFired := false
+	res := simrt.Execute(t, simrt.Config{Chooser: c, Trace: o.Trace, MaxSteps: 200000, SigintAt: parseDur(sc.CancelAt), SigintStep: sc.CancelStep}, func(r *simrt.Run) {
 		n := simnet.Install(r)
 		s := &simnet.Server{ConnectTime: parseDur(sc.ConnectTime)}
 		switch sc.Mode {
@@ -225,7 +232,7 @@ func runC09(t *testing.T, c simrt.Chooser, o Opts) *Out {
 	}, func(r *simrt.Run) {
 		ctx, cancel := context.WithCancel(context.Background())
 		defer cancel()
-		r.RegisterSignal(func() { cancelT = r.Now(); cancel() })
+		r.RegisterSignal(func() { cancelT = r.Now(); cancelFired = true; cancel() })
 		scanner := socks5.NewScanner(socks5.WithDialTimeout(dialTO), socks5.WithDataTimeout(dataTO))
 		start := r.Now()
 		result, scanErr = scanner.Scan(ctx, &scan.Request{DstIP: net.IPv4(198, 51, 100, 7), DstPort: 1080})
@@ -236,7 +243,7 @@ func runC09(t *testing.T, c simrt.Chooser, o Opts) *Out {
 	})
 	out.Res = &res
 	out.Nontrivial = true
-	out.Key = fmt.Sprintf("%s/%v/%s/%s/%s/%016x", sc.Mode, sc.Script, sc.DialTimeout, sc.DataTimeout, sc.CancelAt, res.Hash)
+	out.Key = fmt.Sprintf("%s/%v/%s/%s/%s/%d/%016x", sc.Mode, sc.Script, sc.DialTimeout, sc.DataTimeout, sc.CancelAt, sc.CancelStep, res.Hash)
 	sig := sc.Mode
 	if len(sc.Script) > 0 {
 		sig += "/" + sc.Script[len(sc.Script)-1].Op
@@ -249,7 +256,7 @@ func runC09(t *testing.T, c simrt.Chooser, o Opts) *Out {
 		out.violate("C09.hang", sig, "Scan did not return: %v at %v; parked %v", res.End, res.Virt, firstN(res.Blocked, 10))
 		return out
 	}
-	cancelled := res.SigTime > 0 && cancelT > 0 && cancelT <= dur
+	cancelled := cancelFired && cancelT <= dur
 	// time bound: connect timeout + one write + at most two reads
 	if limit := dialTO + 3*dataTO; dur > limit {
 		out.violate("C09.time-bound", sig, "Scan took %v, bound is dial %v + 3 x data %v = %v", dur, dialTO, dataTO, limit)
